@@ -35,7 +35,7 @@ def run(tier, seed, res):
                        "values are non-empty, contain no '#', no leading/trailing blanks; integers decimal or 0x-hex; repeated --mca only for string parameters",
                        "parameters are registered after parsec_init / command-line processing, synonyms right after their parameter, lookups at the end"]
     nw = 16
-    per = 20 if quick else 2500
+    per = 12 if quick else 2500
     rd = core.run_dir(PROP)
     jobs = []
     for i in range(nw):
